@@ -757,6 +757,22 @@ Definition apply_qual (m : list (str * qv)) (q : qual) : list (str * qv) :=
                end
   end.
 Definition quals_dict (qs : list qual) : list (str * qv) := fold_left apply_qual qs [].
+(* vocabulary of C10_quals_dict: the value a qualifier line assigns, the last assignment to a key, keys in order of first use *)
+Definition qassign (q : qual) : option (str * qv) :=
+  match q with
+  | QText k cs => Some (k, QS (concat cs))
+  | QNum k dg => Some (k, QI (dval dg))
+  | QRaw k v => Some (k, QS v)
+  | QFlag _ => None
+  end.
+Fixpoint last_val (k : str) (qs : list qual) (acc : option qv) : option qv :=
+  match qs with
+  | [] => acc
+  | q :: r => last_val k r (match qassign q with Some (k', v) => if str_eqb k' k then Some v else acc | None => acc end)
+  end.
+Definition dkey (q : qual) : str := match q with QFlag _ => k_misc | QText k _ | QNum k _ | QRaw k _ => k end.
+Definition add_key (ks : list str) (k : str) : list str := if mem k ks then ks else ks ++ [k].
+Definition first_use (ks : list str) : list str := fold_left add_key ks [].
 Definition view_feat (excl : list str) (oid : option str) (f : afeat) : feat :=
   let qs := quals_dict (aquals f) in
   mkfeat (akey f) (sort_locs (sem (aloc f)))
@@ -843,7 +859,8 @@ Definition wf_afeat (f : afeat) : bool := wf_afeat_pre f && one_strand (sem (alo
 Definition wf_arec (excl : list str) (r : arec) : bool :=
   forallb wf_hfield (ahdr r)
   && (length (filter (fun h => str_eqb (hk h) k_ACCESSION) (ahdr r)) <=? 1)%nat
-  && forallb wf_afeat (afts r)
+  (* with fts excluded the feature table is skipped, not parsed: a feature on both strands is harmless then *)
+  && forallb (fun f => wf_afeat_pre f && (mem k_fts excl || one_strand (sem (aloc f)))) (afts r)
   && forallb is_alpha (aseq r)
   (* the ORIGIN line numbers fit their 9-column field (fewer than 10^9 residues) *)
   && forallb (fun p => all_digits (dec_of_nat p) && (length (dec_of_nat p) <=? 9)%nat) (origin_positions (aseq r))
@@ -853,6 +870,29 @@ Definition wf_C10 (excl : list str) (rs : list arec) : bool :=
   nonempty rs && forallb (wf_arec excl) rs
   (* no rendered line contains a newline (implied by the character classes above; kept as a checked condition) *)
   && forallb (fun l => negb (has nl l)) (flat_map render_rec rs).
+
+(* ---- outside the one-strand / ORIGIN domain: the error classes (C10_read_errors) ---- *)
+(* a feature on both strands: LocationTuple raises ValueError when the feature is built, i.e. at the next key line or ORIGIN *)
+Definition bad_strand (f : afeat) : bool := wf_afeat_pre f && negb (one_strand (sem (aloc f))).
+(* well-formed features, then one on both strands, then features that are well-formed up to their strands *)
+Fixpoint strand_scan (fs : list afeat) : bool :=
+  match fs with
+  | [] => false
+  | f :: r => if wf_afeat f then strand_scan r else bad_strand f && forallb wf_afeat_pre r
+  end.
+(* the error a record causes: ValueError for a both-strand feature (record with ORIGIN), AssertionError (an assert statement,
+   genbank.py:117-118) for a record without ORIGIN whose last feature is still pending at '//' *)
+Definition err_rec (excl : list str) (r : arec) : option str :=
+  if mem k_fts excl || negb (forallb wf_hfield (ahdr r)) then None
+  else if aorigin r then (if strand_scan (afts r) then Some ValueError else None)
+  else if negb (is_nil (afts r)) && forallb wf_afeat (afts r) then Some AssertionError else None.
+(* the first record that is not well-formed decides *)
+Fixpoint err_class (excl : list str) (rs : list arec) : option str :=
+  match rs with
+  | [] => None
+  | r :: rest => if wf_arec excl r then err_class excl rest else err_rec excl r
+  end.
+Definition no_nl (rs : list arec) : bool := forallb (fun l => negb (has nl l)) (flat_map render_rec rs).
 
 (* ---- values for the harness ---- *)
 Definition v_loc (l : loc) : val := VL [VI (lstart l); VI (lstop l); VS [lstrand l]; VI (Z.of_N (ldefect l))].
@@ -906,8 +946,10 @@ Definition spec_val (excl : list str) (rs : list arec) : val :=
 Definition run_C10 (excl : list str) (rs : list arec) : val :=
   let text := render_gb rs in
   let m := run_text excl text in
-  VL [VB (wf_C10 excl rs); VI (Z.of_nat (length text)); VI (text_hash text);
-      VB (val_eqb m (spec_val excl rs)); m].
+  let wf := wf_C10 excl rs in
+  let e := if wf then None else if no_nl rs then err_class excl rs else None in
+  VL [VB (wf || match e with Some _ => true | None => false end); VI (Z.of_nat (length text)); VI (text_hash text);
+      VB (val_eqb m (match e with Some k => VL [VE k; VE k] | None => spec_val excl rs end)); m].
 (* raw text (mutated files): never in the domain *)
 Definition run_C10_raw (excl : list str) (text : str) : val :=
   VL [VB false; VI (Z.of_nat (length text)); VI (text_hash text); VB false; run_text excl text].
